@@ -263,7 +263,32 @@ ORDER_FREE = re.compile(r"::(len|is_empty|contains|iter|into_iter|deref|as_ref|a
                         r"sort\w*|collect|filter|map|filter_map|flat_map|flatten|chain|drop|eq|ne)$")
 
 
-def _order_free_uses(cf, d):
+def _loop_effects_order_free(f, header_bb):
+    """the body of the `for` loop headed at header_bb only performs effects whose combined outcome is independent of the
+    iteration order: keyed removals / insertions into maps and sets, counters, logging; it appends to no vector, prints
+    nothing, and is left only when the iterator is exhausted"""
+    from .r1e import natural_loops
+    loops = [(h, body) for h, _l, body in natural_loops(f) if header_bb in body]
+    if not loops:
+        return False
+    h, body = min(loops, key=lambda x: len(x[1]))
+    nxt = f.blocks[header_bb]["t"][1].get("target")
+    for b in body:
+        t = f.blocks[b]["t"]
+        if b not in (header_bb, nxt):
+            for s2 in f.succs(b):
+                if s2 not in body:
+                    return False          # early exit
+        if t[0] == "call":
+            res = t[1].get("res") or t[1].get("fn") or ""
+            if t[1]["span"][4].startswith("macro:") and not re.search(r"_print|_eprint", res):
+                continue
+            if re.search(r"Vec::<T, A>::(push|extend|insert|extend_from_slice|append)$|::_print$|::_eprint$|io::Write|fmt::Write|String::push", res):
+                return False
+    return True
+
+
+def _order_free_uses(cf, d, _depth=0):
     """every use of the unordered value (held in local d and what it is moved / borrowed into) is a call whose outcome cannot
     depend on the element order, and what is collected from it lands in a set / map or is itself sorted; a for-loop over it, a
     `first()` / `find()`, or handing it to another function of the crate is an order-sensitive use"""
@@ -288,8 +313,17 @@ def _order_free_uses(cf, d):
             continue
         res = c.get("res") or c.get("fn") or ""
         if c["span"][4].startswith("desugar:ForLoop"):
+            if (c.get("fn") or "").endswith("IntoIterator::into_iter"):
+                continue  # the loop's iterator is created here; the loop itself is judged at its `next`
+            if c.get("fn") == "std::iter::Iterator::next" and _loop_effects_order_free(cf, bb):
+                continue  # a loop that removes / inserts keyed entries for each element: the final state does not depend on order
             return False
         if c.get("res_local") and c.get("res") in cf.crate.fns:
+            # handed to another function of the crate: order-free there? (two levels)
+            g = cf.crate.fns[c["res"]]
+            idxs = [i for i, a in enumerate(c["args"]) if op_local(a) in holders]
+            if _depth < 2 and g.kind in ("fn", "method") and all(i + 1 <= g.argc and _order_free_uses(g, i + 1, _depth + 1) for i in idxs):
+                continue
             return False
         if not ORDER_FREE.search(res):
             return False
